@@ -1,5 +1,5 @@
 """Per-property registration data; bin/mkmanifest turns it into MANIFEST.json."""
-HOOK_COMMITS = ["5816b2c", "0e6a52c", "93c1311"]
+HOOK_COMMITS = ["5816b2c", "0e6a52c", "93c1311", "d17fd79"]
 CHECKS = {
  "C16": dict(
     category="model_checking",
